@@ -17,6 +17,11 @@ HAND = {
     "h2": "proto h2\n\nenum color_kind : uint5 {\n    COLOR_KIND_RED = 0\n    COLOR_KIND_GREEN = 9\n}\n\n"
           "message sensor_data {\n    bool sensor_kind = 1\n    byte[3] raw_bytes = 2\n}\n\n"
           "message Top {\n    sensor_data one = 1\n    color_kind c = 7\n}\n",
+    # members declared out of value order, the zero member last; constants referencing each other
+    "h3": "proto h3\n\nconst WIDTH_B = 3\nconst WIDTH_A = WIDTH_B * 2\n\nenum Mode : uint4 {\n    MODE_AUTO = 2\n"
+          "    MODE_MANUAL = 7\n    MODE_OFF = 0\n    MODE_TEST = 1\n}\n\n"
+          "message Top {\n    Mode m = 2\n    Mode[WIDTH_A] ms = 1\n    message Inner {\n        enum Mode : uint2 {\n"
+          "            MODE_Z = 3\n            MODE_A = 0\n        }\n        Mode im = 1\n    }\n    Inner inner = 3\n}\n",
 }
 
 
@@ -52,7 +57,7 @@ def main(tier, replay=None):
             if r.ok:
                 raise common.MachineryError("negative control %s not refuted" % keying)
             rep.cov.setdefault("negative_controls_refuted", {})[keying] = r.violated
-    nrand, nsched = (4, 120) if tier == "quick" else (30, 2500)
+    nrand, nsched = (8, 200) if tier == "quick" else (40, 3000)
     with common.Scratch("c18") as scratch:
         root = scratch.sub("schemas")
         schemas = {}
